@@ -122,6 +122,17 @@ func newSession(
 	mergedAlphaConfiguration := MergeConfigurations(configuration, configurationAlpha)
 	mergedBetaConfiguration := MergeConfigurations(configuration, configurationBeta)
 
+	// Verify that the merged configurations are valid. The session and
+	// endpoint-specific configurations are validated individually elsewhere,
+	// but certain constraints (such as default file modes under the effective
+	// permissions mode) can only be checked on the merged result, which is
+	// what endpoints are actually initialized with.
+	if err := mergedAlphaConfiguration.EnsureValid(false); err != nil {
+		return nil, fmt.Errorf("invalid effective alpha configuration: %w", err)
+	} else if err = mergedBetaConfiguration.EnsureValid(false); err != nil {
+		return nil, fmt.Errorf("invalid effective beta configuration: %w", err)
+	}
+
 	// If the session isn't being created paused, then try to connect to the
 	// endpoints. Before doing so, set up a deferred handler that will shut down
 	// any endpoints that aren't handed off to the run loop due to errors.
